@@ -50,6 +50,13 @@ static void run(Out& out, bool tracked, std::istringstream& is, size_t nops) {
             obs += std::string(i > 1 ? "," : "") + "{\"size\":" + std::to_string(b.size()) + ",\"empty\":" + (b.empty() ? "true" : "false") +
                    ",\"max\":" + std::to_string(b.max_size()) + ",\"seq\":" + jarr(seq);
             if (!b.empty()) obs += ",\"front\":" + std::to_string(rd<T>(b.front())) + ",\"back\":" + std::to_string(rd<T>(b.back()));
+            // the const overloads of operator[], front(), back(); capacity() is a power of two that can hold max_size() elements plus the free slot
+            const RB& cb = b;
+            std::vector<long long> seqc;
+            for (size_t j = 0; j < cb.size(); ++j) seqc.push_back(rd<T>(cb[j]));
+            obs += ",\"seq_c\":" + jarr(seqc);
+            if (!cb.empty()) obs += ",\"front_c\":" + std::to_string(rd<T>(cb.front())) + ",\"back_c\":" + std::to_string(rd<T>(cb.back()));
+            obs += ",\"cap\":" + std::to_string(cb.capacity());
             obs += "}";
         }
         obs += "]";
@@ -90,7 +97,7 @@ static void run(Out& out, bool tracked, std::istringstream& is, size_t nops) {
     s[1].reset(); s[2].reset();
     // destruction of both buffers: nothing may stay alive, every block returned
     Ev ev("reset"); ev.num("r", 0).num("a", 0).str("how", "final").str("el", tracked ? "tracked" : "int");
-    ev.raw("obs", "[{\"size\":0,\"empty\":true,\"max\":0,\"seq\":[]},{\"size\":0,\"empty\":true,\"max\":0,\"seq\":[]}]");
+    ev.raw("obs", "[{\"size\":0,\"empty\":true,\"max\":0,\"seq\":[],\"seq_c\":[],\"cap\":0},{\"size\":0,\"empty\":true,\"max\":0,\"seq\":[],\"seq_c\":[],\"cap\":0}]");
     if (tracked) { ev.arr("live", ledger().live_values()); ev.num("blocks", g_blocks); }
     ev.num("lerr", ledger().nerr + g_alloc_err);
     ev.emit(out);
